@@ -151,7 +151,7 @@ def add_relevant_filename(name: str) -> None:
 class SimThread:
     __slots__ = (
         "sched", "tid", "name", "fn", "sem", "state", "local_step", "blocked_on",
-        "exc", "result", "aborted", "preempt", "thread", "regions",
+        "exc", "result", "aborted", "preempt", "thread", "regions", "pid_",
     )
 
     def __init__(self, sched: "Sched", tid: int, fn, name: str) -> None:
@@ -169,6 +169,7 @@ class SimThread:
         self.preempt: dict[int, int] = {}
         self.thread: threading.Thread | None = None
         self.regions: list[str] | None = None
+        self.pid_ = tid
 
 
 class Sched:
